@@ -132,8 +132,13 @@ def corpus_for(cfg):
             continue
         # Sum/Product fold with the type's own Add/Mul impl, DerefMut/IndexMut need the type's Deref/Index:
         # only meaningful next to those derives
+        has_type_param = bool(re.search(r"(^|[',])\s*[TU]\b", str(it.dims[2])))
         for dep, need in (("Sum", "Add"), ("Product", "Mul"), ("DerefMut", "Deref"), ("IndexMut", "Index")):
             if dep in ds and need not in ds:
+                # (for a type with type parameters `Sum`/`Product` only add a `Self: Add/Mul` where-clause,
+                # so the impl itself must compile without the other feature)
+                if dep in ("Sum", "Product") and has_type_param and "forward" not in it.src:
+                    continue
                 ds = [d for d in ds if d != dep]
         if not ds:
             continue
